@@ -127,6 +127,14 @@ def asyncEntriesWithServer (c : Cache) (name : String) : List Rec := c.svc.get (
 def asyncAllByDetails (c : Cache) (name : String) (type class_ : Nat) : List Rec :=
   (c.cache.get (lower name)).filter (fun e => decide (type = e.type) && decide (class_ = e.class_))
 
+/-- `DNSCache.current_entry_with_name_and_alias`: the most recently inserted pointer record of `name` whose alias is spelled
+`alias` and that has not expired at `now` — the one lookup that reads the wall clock itself (`now = current_time_millis()`).
+(A record of type PTR that is not a `DNSPointer` has no `alias`: the code would raise `AttributeError`; the decoder never builds
+one, the model answers "no match".) -/
+def currentEntryWithNameAndAlias (c : Cache) (name alias : String) (now : Ms) : Option Rec :=
+  (c.entriesWithName lower name).reverse.find? (fun e =>
+    decide (e.type = Gen.typePtr) && !(e.isExpired now) && (match e.rdata with | .ptr a => decide (a = alias) | _ => false))
+
 /-! in-place mutation of cached record objects -/
 
 def mapRecs (f : Rec → Rec) (c : Cache) : Cache := { cache := c.cache.mapRecs f, svc := c.svc.mapRecs f }
